@@ -176,7 +176,7 @@ func runC18(r *core.Run, tier string) {
 	} else {
 		r.Inconclusive("fc does not build: " + err.Error())
 	}
-	n := 300
+	n := 1000
 	if tier == "thorough" {
 		n = 10000
 	}
